@@ -1302,9 +1302,13 @@ fn execute_match(
                     .ok_or(ContractError::TotalOverflow)?,
             ))?;
 
-            match (&actual_bid_fee, original_bid_fee) {
-                (Some(actual_bid_fee), Some(mut original_bid_fee)) => {
-                    let refund_amount = original_bid_fee.amount - actual_bid_fee.amount;
+            match original_bid_fee {
+                Some(mut original_bid_fee) => {
+                    let actual_bid_fee_amount = match &actual_bid_fee {
+                        Some(actual_bid_fee) => actual_bid_fee.amount,
+                        None => Uint128::zero(),
+                    };
+                    let refund_amount = original_bid_fee.amount - actual_bid_fee_amount;
 
                     if refund_amount.gt(&Uint128::zero()) {
                         original_bid_fee.amount = refund_amount;
@@ -1313,7 +1317,7 @@ fn execute_match(
                         None
                     }
                 }
-                (_, _) => None,
+                None => None,
             }
         };
 
